@@ -162,3 +162,78 @@ Theorem C17_nonvacuous_schedules :
   (overlap_free 10 (9, repeat QStart 3) [0; 0; 1; 2; 1] = true /\ fst (qrun 10 9 (repeat QStart 3) [0; 0; 1; 2; 1]) = 10).
 Proof. exact (conj server_cap_current_witness quota_guard_nonvacuous). Qed.
 Print Assumptions C17_nonvacuous_schedules.
+
+(* ---- the quota count as a fold over storage reads, each of which may fail ---- *)
+
+(* FAIL CLOSED (CreateConnectionCode as coded: a failing read aborts the listing): a request at a full quota is refused
+   or fails, and changes nothing, whichever reads fail — the index read, any subset of the by-id reads *)
+Theorem C17_quota_fail_closed :
+  forall (max : nat) (recs : list bool) (idxfault : bool) (rfaults : list bool),
+  max <= active recs ->
+  fst (admit_once Abort max recs idxfault rfaults) <> ACreated /\ snd (admit_once Abort max recs idxfault rfaults) = recs.
+Proof. exact quota_fail_closed. Qed.
+Print Assumptions C17_quota_fail_closed.
+
+Theorem C17_quota_abort_preserves_limit :
+  forall max recs idxfault rfaults,
+  active recs <= max -> active (snd (admit_once Abort max recs idxfault rfaults)) <= max.
+Proof. exact quota_abort_preserves_limit. Qed.
+Print Assumptions C17_quota_abort_preserves_limit.
+
+(* a request that is not admitted changes nothing, under every read policy *)
+Theorem C17_quota_not_admitted_changes_nothing :
+  forall p max recs idxfault rfaults,
+  fst (admit_once p max recs idxfault rfaults) <> ACreated -> snd (admit_once p max recs idxfault rfaults) = recs.
+Proof. exact admit_not_created_unchanged. Qed.
+Print Assumptions C17_quota_not_admitted_changes_nothing.
+
+(* the lenient listings (skip a failing by-id read; ActivateConnectionCode's listing as found) refuse at the full quota
+   only under the guard "no read fails" *)
+Theorem C17_quota_lenient_refuses_partial :
+  forall p max recs, max <= active recs -> admit_once p max recs false [] = (ARefused, recs).
+Proof. exact quota_lenient_refuses_without_fault. Qed.
+Print Assumptions C17_quota_lenient_refuses_partial.
+
+(* ... and are refuted by a single failing read: "log and skip the unreadable record" admits one beyond a full quota *)
+Theorem C17_quota_skip_refuted :
+  exists recs f, active recs = 3 /\ countb (fun b => b) f = 1 /\
+                 admit_once SkipRecord 3 recs false f = (ACreated, true :: recs).
+Proof. exact quota_skip_refuted. Qed.
+Print Assumptions C17_quota_skip_refuted.
+
+(* ActivateConnectionCode step 5 as found (known finding conncode-activate-quota-fails-open-on-read-fault) *)
+Theorem C17_quota_open_refuted :
+  admit_once Open 1 [true] true [] = (ACreated, [true; true]) /\
+  admit_once Open 1 [true] false [true] = (ACreated, [true; true]).
+Proof. exact quota_open_refuted. Qed.
+Print Assumptions C17_quota_open_refuted.
+
+(* ---- the repaired quota admission: per-client SetNX marker around count + create ---- *)
+
+(* any limit, any number of requests of one client, any of them hitting a failing read, any schedule of the storage-level
+   steps SetNX / count / create / Delete: the active count never exceeds the limit, the bookkeeping is exact, and the
+   marker is held by at most one request *)
+Theorem C17_quota_locked_never_exceeds :
+  forall (max base : nat) (faults : list bool) (sched : list nat),
+  base <= max ->
+  let s := lrun max {| q_n := base; q_lock := false |} (map l_new faults) sched in
+  q_n (fst s) <= max /\
+  q_n (fst s) = base + countb l_created (snd s) /\
+  countb l_holds (snd s) + countb l_counted (snd s) = (if q_lock (fst s) then 1 else 0).
+Proof. exact quota_locked_never_exceeds. Qed.
+Print Assumptions C17_quota_locked_never_exceeds.
+
+(* the only step that changes the stored count is the create of a request that counted below the limit while holding the
+   marker: a request that lost the SetNX, was refused, or hit a failing read changes nothing *)
+Theorem C17_quota_locked_refused_changes_nothing :
+  forall max lo sh lo' sh',
+  lstep max lo sh = (lo', sh') -> q_n sh' <> q_n sh -> l_pc lo = LCounted /\ l_pc lo' = LDoneHeld /\ q_n sh' = S (q_n sh).
+Proof. exact quota_locked_step_count. Qed.
+Print Assumptions C17_quota_locked_refused_changes_nothing.
+
+Theorem C17_quota_locked_nonvacuous :
+  let s := lrun 2 {| q_n := 1; q_lock := false |} [l_new false; l_new false; l_new true]
+                [0; 1; 2; 0; 0; 1; 0; 0; 2; 2; 2; 2] in
+  fst s = {| q_n := 2; q_lock := false |} /\ map l_pc (snd s) = [LCreated; LBusy; LFailed].
+Proof. exact quota_locked_witness. Qed.
+Print Assumptions C17_quota_locked_nonvacuous.
